@@ -381,6 +381,17 @@ def new_parser(log, values=True, host=None):
 
     def on_fn(name, args, setter):
         log.append(('fn', name, snapshot(args)))
+    # ahead of the recording listeners: a one-shot tracer (once) and a listener that unsubscribes itself at its first call - hosts
+    # do that - so that the listener list changes WHILE the first event of each kind is being delivered
+    for ev in ('callCellValue', 'callRangeValue', 'callVariable', 'callFunction'):
+        p.once(ev, lambda *a: None)
+
+        def selfoff(*a, **kw):
+            p.off(kw['_ev'], kw['_me'][0])
+        me = []
+        ctx = {'_ev': ev, '_me': me}
+        me.append(selfoff)
+        p.on(ev, selfoff, ctx)
     p.on('callCellValue', on_cell)
     p.on('callRangeValue', on_range)
     p.on('callVariable', on_var)
